@@ -279,7 +279,7 @@ func epollCfg(mode string) (uint32, uint32, bool) {
 		return nbio.EPOLLET, 0, false
 	case "ET+ONESHOT":
 		return nbio.EPOLLET, nbio.EPOLLONESHOT, false
-	case "ET+ASYNCREAD":
+	case "ET+ASYNCREAD", "ET+ASYNCREAD+SYNCEXEC":
 		return nbio.EPOLLET, 0, true
 	}
 	return nbio.EPOLLLT, 0, false
@@ -302,6 +302,14 @@ func startEnvNet(rep *hx.Report, seed int64, mode string, tableSize int, network
 		env.mode = mode + "/udp"
 		conf.NPoller = 1
 		conf.UDPReadTimeout = udpIdle
+	}
+	if strings.HasSuffix(mode, "+SYNCEXEC") {
+		// Config.IOExecute supplied by the user: the read task runs at once, in the poller goroutine (what the library's own
+		// taskpool.IOTaskPool.Call does); every "the task finishes before the poller goes on" interleaving becomes the rule
+		conf.IOExecute = func(f func(*[]byte)) {
+			buf := make([]byte, 32<<10)
+			f(&buf)
+		}
 	}
 	g := nbio.NewEngine(conf)
 	g.OnOpen(func(c *nbio.Conn) {
@@ -1404,6 +1412,9 @@ func rejectedCase(rep *hx.Report, seed int64, mode string) {
 var udpScenarios = map[string]bool{"concurrent-close": true, "concurrent-close-with-error": true, "close-in-ondata": true,
 	"close-in-onclose": true, "read-deadline": true}
 
+var syncExecScenarios = map[string]bool{"peer-close": true, "peer-reset": true, "write-failure": true, "close-in-ondata": true,
+	"concurrent-close": true, "udp-refused": true}
+
 var fdBaselineInvalid bool // an engine had to be abandoned (its poller is blocked): the descriptor count is meaningless
 
 // udpTableHistory: a sequential history of datagrams from a few remotes and closes of their sessions against one UDP
@@ -1839,6 +1850,21 @@ func runReal(rep *hx.Report, seed int64, rounds int) {
 			if rep.TooMany() {
 				break
 			}
+		}
+		if !rep.TooMany() {
+			// asynchronous reads with a synchronous executor: the terminations that go through the read path
+			rnd := rand.New(rand.NewSource(seed*7919 + int64(round)*31 + 99))
+			env := startEnv(rep, seed, "ET+ASYNCREAD+SYNCEXEC", 1<<16)
+			for _, sc := range scenarios {
+				if !syncExecScenarios[sc.name] {
+					continue
+				}
+				for _, o := range sc.origins {
+					env.warm = rnd.Intn(3) > 0
+					sc.run(env, o, rnd)
+				}
+			}
+			env.stopEnv(nil)
 		}
 		rejectedCase(rep, seed, modes[round%len(modes)])
 		if !rep.TooMany() {
